@@ -64,7 +64,7 @@ func (e *Engine) RunAgreeCase(c *AgreeCase, dir string) *Outcome {
 		return out
 	}
 	e.Stats.States.Add(fmt.Sprintf("agree:%s:gen%d:check%d:%d", c.Mutation, minInt(gen.Exit, 1), minInt(chk.Exit, 1), len(c.Module.Injectors)))
-	wantCheckFail := gen.Exit != 0 || c.Mutation == "badset"
+	wantCheckFail := gen.Exit != 0 || c.Mutation == "badset" && e.DuplicatesRejected(dir)
 	where := fmt.Sprintf("generated module, mutation %q, check under %s", c.Mutation, c.Iter)
 	switch {
 	case wantCheckFail && chk.Exit == 0 && gen.Exit != 0:
